@@ -14,7 +14,7 @@ pub fn run(tier: Tier) -> i32 {
     let lens: &[usize] = tier.pick(&[2, 3, 4, 5, 10, 25], &[2, 3, 4, 5, 6, 7, 8, 10, 15, 20, 25, 30, 35, 40]);
     let betas = [0.0, 0.1, 0.3, 0.5];
     let alphas = [0.0, 0.3, 0.6];
-    rep.set_rule("SCOPE: cepstrum lattice of C06 (scaled so (1+beta) x shape <= 2 Np) x beta {0,.1,.3,.5} x alpha {0,.3,.6} x vector lengths, plus very quiet and very loud frames (c0 -20, -30, 8); plus tilt-dominated spectra (|c1| in {1.2,1.5,1.8}, |c2| in {.2,.4}, all sign pairs) for which the emphasis can lower the energy; second pulse of a stationary 2-frame run through the real Vocoder; oracle: log|H_beta|-log|H_0|-beta*sum_{m>=2} c_m cos(m w~) constant over frequency within 0.01 Np, impulse-response energy within 1%, beta=0 and length 2 bit-identical to no postfilter; plus a 400 Hz pulse train equal to the superposition of the pulse response measured at 20 Hz; plus unvoiced frames: the noise-excited output equals the noise convolved with the pulse response measured on voiced frames; plus histories: the last frame after a linear glide between two cepstra over 8, 300 or 2500 (thorough: 12000) frames obeys the same two laws, and so do stationary frames after a first frame that differs from them only in the sign of one coefficient and one low mantissa bit (0..12) of a neighbour one or two places on; distinct = (length, alpha, beta, cepstrum); non-trivial = beta>0 and length>2");
+    rep.set_rule("SCOPE: cepstrum lattice of C06 (scaled so (1+beta) x shape <= 2 Np) x beta {0,.1,.3,.5} x alpha {0,.3,.6} x vector lengths, plus very quiet and very loud frames (c0 -20, -30, 8); plus tilt-dominated spectra (|c1| in {1.2,1.5,1.8}, |c2| in {.2,.4}, all sign pairs) for which the emphasis can lower the energy; second pulse of a stationary 2-frame run through the real Vocoder; oracle: log|H_beta|-log|H_0|-beta*sum_{m>=2} c_m cos(m w~) constant over frequency within 0.01 Np, impulse-response energy within 1%, beta=0 and length 2 bit-identical to no postfilter; plus a 400 Hz pulse train equal to the superposition of the pulse response measured at 20 Hz; plus unvoiced frames: the noise-excited output equals the noise convolved with the pulse response measured on voiced frames; plus histories: the last frame after a linear glide between two cepstra over 8, 300 or 2500 (thorough: 12000) frames obeys the same two laws, so do stationary frames after a first frame that differs from them in exactly one coefficient k (every k for lengths 3 and 6; 0,1,2,3,middle,last for 25), and so do stationary frames after a first frame that differs from them only in the sign of one coefficient and one low mantissa bit (0..12) of a neighbour one or two places on; distinct = (length, alpha, beta, cepstrum); non-trivial = beta>0 and length>2");
     rep.assume("lattice cepstra only; energy measured on the truncated pulse response (tail < 1e-7 of peak)");
     let mut cases: Vec<(usize, f64, f64, Vec<f64>)> = Vec::new();
     for &len in lens {
@@ -153,19 +153,25 @@ pub fn run(tier: Tier) -> i32 {
     // histories: a spectrum that glides slowly from A to B over N frames and then stays at B. The postfilter works frame
     // by frame, so the last frame must obey the same laws as a fresh vocoder given B - whatever N is (anything that
     // remembers earlier frames shows up only for long, slow glides)
-    let mut glides: Vec<(usize, f64, f64, usize)> = Vec::new();
+    let mut glides: Vec<(usize, f64, f64, usize, Option<usize>)> = Vec::new();
     for &len in &[3usize, 6, 25] {
         for &alpha in &[0.0, 0.42] {
             for &beta in &[0.1, 0.4] {
                 for &n in tier.pick(&[8usize, 300, 2500][..], &[8usize, 300, 2500, 12000][..]) {
-                    glides.push((len, alpha, beta, n));
+                    glides.push((len, alpha, beta, n, None));
+                }
+                // single-coefficient steps: a first frame that differs from the following stationary frames in exactly
+                // one coefficient k (every k for short vectors) - a memo keyed on part of the vector hides here
+                let ks: Vec<usize> = if len <= 6 { (0..len).collect() } else { vec![0, 1, 2, 3, len / 2, len - 1] };
+                for k in ks {
+                    glides.push((len, alpha, beta, 1, Some(k)));
                 }
             }
         }
     }
     let glide_worst = Mutex::new(0.0f64);
     rep.par_for(glides.len(), 1, "C14 glides", |gi| {
-        let (len, alpha, beta, n) = glides[gi];
+        let (len, alpha, beta, n, step) = glides[gi];
         let pats = patterns(len);
         let mk = |pi: usize, scale: f64, c0: f64| -> Vec<f64> {
             let mut c = pats[pi % pats.len()].clone();
@@ -176,8 +182,15 @@ pub fn run(tier: Tier) -> i32 {
             c[0] = c0;
             c
         };
-        let a = mk(1, 0.6, 0.3);
         let b = mk(pats.len() / 2 + 1, 1.2, -0.2);
+        let a = match step {
+            None => mk(1, 0.6, 0.3),
+            Some(k) => {
+                let mut a = b.clone();
+                a[k] = 0.3 - 0.5 * b[k];
+                a
+            }
+        };
         let rate = 16000usize;
         let t0 = rate / 20;
         let run = |bt: f64| -> Result<Vec<f64>, String> {
@@ -195,7 +208,7 @@ pub fn run(tier: Tier) -> i32 {
             })
         };
         rep.eval(1);
-        let rp = json!({"vector_length": len, "alpha": alpha, "beta": beta, "glide_frames": n, "from": a, "to": b, "measure": "last of three frames at the end point"});
+        let rp = json!({"vector_length": len, "alpha": alpha, "beta": beta, "glide_frames": n, "single_coefficient_step": step, "from": a, "to": b, "measure": "last of three frames at the end point"});
         let (h0, hb) = match (run(0.0), run(beta)) {
             (Ok(x), Ok(y)) => (x, y),
             (Err(p), _) | (_, Err(p)) => {
@@ -461,7 +474,7 @@ pub fn run(tier: Tier) -> i32 {
         rep.note("vocoder_clone_cases", json!(n));
     }
     rep.note("noise_excited_cases", json!(noise_cases));
-    rep.note("glides", json!({"cases": glides.len(), "frames": tier.pick(&[8usize, 300, 2500][..], &[8usize, 300, 2500, 12000][..]), "worst_energy_rel": *glide_worst.lock().unwrap()}));
+    rep.note("glides", json!({"cases": glides.len(), "single_coefficient_steps": glides.iter().filter(|g| g.4.is_some()).count(), "frames": tier.pick(&[8usize, 300, 2500][..], &[8usize, 300, 2500, 12000][..]), "worst_energy_rel": *glide_worst.lock().unwrap()}));
     let w = *worst.lock().unwrap();
     rep.nontrivial.store(nontriv.load(std::sync::atomic::Ordering::Relaxed), std::sync::atomic::Ordering::Relaxed);
     rep.note("bounds", json!({"lengths": lens, "alphas": alphas, "betas": betas, "scales_np": [0.5, 1.3], "frequencies": nfreq, "cepstra": cases.len(), "worst_shape_spread_np": w.0, "worst_energy_rel": w.1}));
